@@ -579,7 +579,8 @@ class C09(Property):
         rng = random.Random(f'C09-{seed}')
         n_chain = (2600 if tier == 'quick' else 40000) * widen
         n_conc = (500 if tier == 'quick' else 6000) * widen
-        cases = [c for _s, c in WITNESSES] + _corpus()
+        cases = [c for _s, c in WITNESSES]
+        cases += [c for c in _corpus() if c not in cases]
         n_fixed = len(cases)
         cases += [_gen_chain_case(rng) for _ in range(n_chain)]
         cases += [_gen_conc_case(rng) for _ in range(n_conc)]
